@@ -41,4 +41,9 @@ F28 notices every statement that rebinds
 F29 gives comprehensions a scope of their own
 F30 notices **kwargs being altered from nested functions
 F31 falls back for functools.partial(*args, **kwargs)
+F12 whose first parameter is named in the decorator
+F32 stacked modifiers are re-applied
+F33 comparing signatures whose annotations cannot be evaluated
+F34 UpgradedSignature accepts any iterable
+F35 modifiers wrappers and Combination no longer reserve
 LIST
